@@ -13,6 +13,13 @@ structure FSpec where
   pos : Nat
 deriving Repr, DecidableEq
 
+/-- File::size when the k-th lseek fails: failure is reported for k ≤ 1 (nothing moved), for k = 2 when the position was
+    not at the end (then it STAYS at the end: the restoring lseek is the one that failed); otherwise the size -/
+def specSizeF (s : FSpec) (k : Nat) : FSpec × Option Nat :=
+  if k ≤ 1 then (s, none)
+  else if k = 2 ∧ s.pos ≠ s.content.length then (⟨s.content, s.content.length⟩, none)
+  else (s, some s.content.length)
+
 /-- what one File operation must answer and do, given the access mode of the open file -/
 def specStep (acc : Access) (s : FSpec) : FileOp → FSpec × FileOut
   | .write d =>
@@ -32,6 +39,14 @@ def specStep (acc : Access) (s : FSpec) : FileOp → FSpec × FileOut
   | .read n =>
     if acc = .wronly then (s, .data none)
     else (⟨s.content, s.pos + ((s.content.drop s.pos).take n).length⟩, .data (some ((s.content.drop s.pos).take n)))
+  | .seekF _ _ => (s, .pos none)
+  | .sizeF k => ((specSizeF s k).1, .size (specSizeF s k).2)
+  | .readAllF k =>
+    match (specSizeF s k).2 with
+    | none => ((specSizeF s k).1, .data none)
+    | some _ =>
+      if acc = .wronly then (s, .data none)
+      else (⟨s.content, s.pos + (s.content.drop s.pos).length⟩, .data (some (s.content.drop s.pos)))
 
 def specRun (acc : Access) (s : FSpec) : List FileOp → FSpec × List FileOut
   | [] => (s, [])
